@@ -84,6 +84,7 @@ class Compiler:
     def _select(self, node: ast.Select):
 
         # Compile the FROM clause.
+        outer = self.table
         c_from_expr = self._compile_from(node.from_clause)
 
         # Compile the targets.
@@ -133,6 +134,10 @@ class Compiler:
                           order_spec,
                           node.limit,
                           node.distinct)
+
+        # A nested SELECT must not leave its table behind as the table
+        # of the enclosing query.
+        self.table = outer
 
         pivots = self._compile_pivot_by(node.pivot_by, c_targets, group_indexes)
         if pivots:
